@@ -1,27 +1,73 @@
 """C13 - multithreaded kernels equal their sequential definition for any thread count.
 
-(M)  Slicing.tla: both slicing recurrences hand out every row exactly once for all (rows, threads); the condensed
-     index map is a bijection onto 0..n(n-1)/2-1 in row-major order of the strict upper triangle.
-(C)  c13_drv drives the 10 slicing sites of the real library for every (rows, threads) pair with hooks H2/H3,
-     records the ranges actually handed out, value agreement with an independent definition, the exported
-     index map, where the condensed routines really store each pair, and integer distance tables; TLC validates
-     the whole recording against TraceSlicing.tla (Prop layer: exactly-once cover, values, bijection, metric
-     axioms recomputed by TLC; Impl layer: the code's own recurrence and index formula).
+(M)  Slicing.tla: both slicing recurrences hand out every row exactly once for all (rows, threads) (InvA, InvB, InvSame);
+     the condensed index map is a bijection onto 0..n(n-1)/2-1 in row-major order of the strict upper triangle (InvC);
+     composed with the slicing, the workers of a condensed launch write every cell exactly once for every thread
+     count (InvD).  MtKernel.tla: launcher + workers as a concurrent state machine over HISTORIES of calls into one
+     output object, all interleavings: no cell written twice (WriteOnce), no write outside the object (InBounds),
+     after the join the object has exactly the shape and content of the definition of THIS call whatever it held
+     before (DoneIsDef), every launch is joined (Live); self-tests: with the "return before the resize" guard DoneIsDef
+     fails (MC_MtKernel_guard), without the zero-initialised output only the accumulating kernels fail (NeedsZero).
+     DistAxioms.tla: the integer distance definitions satisfy symmetry / zero self-distance / non-negativity /
+     triangle inequality, and Cauchy-Schwarz for the cosine, on EVERY point set of a small integer cube.
+(C)  c13_drv drives the 10 slicing sites of the real library for every (rows, threads) pair with hooks H2/H3 and
+     records the ranges handed out, value flags, the exported index map, where the condensed routines really store
+     each pair, integer distance tables.  c13_val drives every threaded kernel (two MT products, CalculateDistance x 4
+     kinds, *_ST x 4, *DistanceCondensed x 4, getLabels_) on the input classes K1..K9 of INPUT-CLASSES.md, each call three
+     times and into fresh AND already used output objects, and records a value ledger (Cmp events: shape, cells
+     not bit-identical, largest error in units of 2^-53 x scale); K7 histories (descending / ascending row counts
+     6..0..6 and thread counts 1,2,3,5,8,16,24 up and down into ONE output object) on integer points with the whole
+     table logged (Tab events) so that TLC recomputes shape, every cell, the strict-upper-triangle layout and the
+     axioms exactly; labels of integer points (Lab events); MDC / MaxDis / MaxDis_Fast / k-means++ / k-means on tie
+     and duplicate classes for thread counts up to 64 against the one-thread result.  TLC validates the whole
+     recording against TraceSlicing.tla (Prop layer: exactly-once cover, shapes, cells, tolerances Tol(kind, len)
+     of Slicing.tla, bit-identical repeats, axioms; Impl layer: the code's recurrence, index formula, tie rule,
+     bit-identical MT/sequential results).
+
+Clauses of the statement -> deciding operator / action -> event
+  every row processed by exactly one worker ............ ExactlyOnce, InvA/InvB, MtKernel!WriteOnce; TSlices ...... Slices
+  for every requested or detected thread count ......... Init rows x th (model); th field; H2 forces nproc ......... Slices, Cmp, Tab, Lab
+  MT result = single-threaded result to rounding ....... PropCmp: err <= Tol(tol, len), exact kinds ndiff = 0 ..... Cmp (mt-vs-st, mt-vs-def), Value
+  bit-identical between repeated runs .................. PropCmp what = "repeat", TTab rep = 0, TLab rep = 0 ..... Cmp, Tab, Lab
+  into a zero-initialised output / self-sized outputs .. MtKernel!DoneIsDef, NeedsZero; TTab post = TabShape ..... Tab (pre, post)
+  distance results match their definitions ............. CellOK (SumSq, SumAbs, SqrtQ, CosQ) in TTab, TDist ....... Tab, Dist
+  symmetry, zero self-distance, >= 0, triangle ......... MetricAxioms (DistAxioms.tla), TabAxioms, TDist .......... Tab, Dist
+  condensed = strict upper triangle under the index map  TabCells form = "condensed", CondSize, Idx; TCond ........ Tab, Cond, Cmp (cond-vs-square)
+  the index map is a bijection ......................... CondensedBijection InvC, CondWriteOnce InvD; TIdx, TCond ... Idx, Cond
+  k-means labelling .................................... NearestSet / FirstNearest in TLab; PropCmp exact .......... Lab, Cmp (getLabels_), Value
+  selection algorithms built on them ................... PropCmp exact, what = "vs-1thread" ....................... Cmp (MDC, MaxDis, MaxDis_Fast, KMeans*), Value
 """
-import os, shutil
+import os, shutil, copy
+from concurrent.futures import ThreadPoolExecutor
 from vf import build, tlc, trace
 from vf import run as hrun
 from vf.core import InfraError
 
+W = max(2, int(os.environ.get("VERIF_WORKERS", "8")))
+
 LEVEL = "model_checking"
 READY = True
-TECHNIQUE = ("TLC model checking of Slicing.tla (all rows x threads, condensed-index bijection) + TLC trace validation of the ranges, "
-             "value flags, index positions and integer distance tables recorded from the real kernels (hooks H2, H3)")
-LEVEL_TEXT = ("The slicing recurrences and the condensed index map are model-checked exhaustively for every (rows, threads) pair of the property's "
-              "quantifier; the real library is then driven through the same pairs at all ten slicing sites and TLC validates every recorded range, value "
-              "flag, index position and integer distance table against the specification (exactly-once cover, bijection, metric axioms recomputed by TLC).")
-LEVEL_NOTE = ("Trusts TLC, the H2/H3 hook placement, the harness's double-precision comparison of MT result vs definition (logged as flags), "
-              "ASan/UBSan as memory monitor. Value agreement is sampled data per (site, rows, threads); slicing coverage is exhaustive within bounds.")
+TECHNIQUE = ("TLC model checking of Slicing.tla (all rows x threads: exactly-once slicing, condensed-index bijection, write-once of the condensed "
+             "kernel), MtKernel.tla (launcher + interleaved workers over call histories into one output object) and DistAxioms.tla (metric axioms on "
+             "every integer point set of a cube) + TLC trace validation of the ranges (hooks H2, H3), a value ledger with tolerances defined in the "
+             "specification, whole integer distance tables / labels recomputed by TLC, recorded from the real kernels on input classes K1..K9 and "
+             "in-process histories")
+LEVEL_TEXT = ("The slicing recurrences, the condensed index map and their composition are model-checked exhaustively for every (rows, threads) pair of the "
+              "property's quantifier; a concurrent model of launcher and workers shows shape and content of the output after the join for every interleaving "
+              "and every history of earlier calls.  The real library is driven through the same pairs at all ten slicing sites, through every threaded "
+              "kernel on the cross-cutting input classes (shapes, slice / block boundaries, offsets, magnitudes, ties, missing codes, thread counts up to "
+              "257, reused outputs) and through descending / ascending histories into one output object; TLC validates every recorded range, ledger "
+              "entry (tolerance = function of the reduction length, defined in the spec), integer table cell, shape, label and axiom.")
+LEVEL_NOTE = ("Trusts TLC, the H2/H3 hook placement, the harness's measurement of the ledger entries (cell comparison in long double, quantised to units "
+              "of 2^-53 x scale; TLC judges them), ASan/UBSan as memory monitor.  Value agreement is sampled data per (site, class, rows, threads); slicing "
+              "coverage is exhaustive within bounds.  Classes NOT emitted because the quantifier excludes them: K10 label alphabets (labels are produced, "
+              "not consumed); magnitudes whose squares overflow or underflow for the distances (non-finite definitions) - overflowing PRODUCTS are covered "
+              "for the two MT products only, where the statement's single-threaded result skips them; MISSING cells in distance inputs are plain numbers "
+              "(compared MT vs sequential only, no definition); the cosine of a zero vector (undefined); pre-filled selection vectors for MDC/MaxDis (the "
+              "routines append by contract); non-zero initial outputs for the two MT products (the statement says zero-initialised); k-means on fewer rows "
+              "than clusters; matrices beyond 60 x 10 for values (slicing sweeps go further); concurrent callers (re-entrancy is not claimed).")
+
+VAL_PARTS_Q, VAL_PARTS_T = 6, 12
 
 
 def _sig(ev):
@@ -30,6 +76,20 @@ def _sig(ev):
         return "MT:%s:coverage" % ev["site"], "rows=%d threads=%d ranges=%s do not cover every row exactly once" % (ev["rows"], ev["th"], ev["sl"])
     if e == "Value":
         return "MT:%s:value:%s" % (ev["site"], ev["kind"]), "rows=%d threads=%d: result differs (%s)" % (ev["rows"], ev["th"], ev["kind"])
+    if e == "Cmp":
+        return ("MT:%s:value:%s" % (ev["site"], ev["what"]),
+                "%s %s: rows=%d cols=%d threads=%d class %s/%s: shape_equal=%d, %d cells not bit-identical, largest error %d units of 2^-53*scale (tolerance kind '%s', reduction length %d)"
+                % (ev["site"], ev["what"], ev["rows"], ev["cols"], ev["th"], ev["cls"], ev["shp"], ev["shape"], ev["ndiff"], ev["err"], ev["tol"], ev["len"]))
+    if e == "Tab":
+        n, nb = ev["n"], ev["nb"]
+        want = [nb, n] if ev["form"] == "square" else [n * (n - 1) // 2]
+        what = "shape" if ev["post"] != want else ("repeat" if ev["rep"] else "table")
+        return ("MT:%s:%s:%s" % (ev["site"], ev["kind"], what),
+                "%s %s (%s form) on %d integer points, threads=%d, output object had shape %s before the call (%s): shape after the call %s (definition: %s), "
+                "%d cells differ between three repeated calls; table %s" % (ev["site"], ev["kind"], ev["form"], n, ev["th"], ev["pre"], ev["cls"], ev["post"], want,
+                                                                         ev["rep"], ev.get("sq", ev.get("cv"))))
+    if e == "Lab":
+        return "MT:%s:labels" % ev["site"], "labels %s of points %s against centroids %s (threads=%d) are not nearest-centroid labels / differ between repeats" % (ev["lab"], ev["P"], ev["C"], ev["th"])
     if e == "Idx":
         return "MT:square_to_condensed_index:index", "n=%d: exported index map differs from the documented map" % ev["n"]
     if e == "Cond":
@@ -39,25 +99,218 @@ def _sig(ev):
     return "MT:trace:%s" % e, "unexpected event %s" % ev
 
 
+# ---------------------------------------------------------------------------------------------- (M) models
+def models(ctx):
+    q = ctx.quick
+    runs = [("Slicing", "MC_Slicing_quick.cfg" if q else "MC_Slicing_thorough.cfg", "mc_slicing", True),
+            ("MtKernel", "MC_MtKernel_quick.cfg" if q else "MC_MtKernel_thorough.cfg", "mc_mtkernel", True),
+            ("MtKernel", "MC_MtKernel_nozero.cfg", "mc_mtkernel_nozero", True),
+            ("MtKernel", "MC_MtKernel_live.cfg", "mc_mtkernel_live", True),
+            ("MtKernel", "MC_MtKernel_guard.cfg", "mc_mtkernel_guard_selftest", False),
+            ("DistAxioms", "MC_DistAxioms_quick.cfg" if q else "MC_DistAxioms_thorough.cfg", "mc_distaxioms", True)]
+    if not q:
+        runs += [("MtKernel", "MC_MtKernel_deep3.cfg", "mc_mtkernel_deep3", True), ("DistAxioms", "MC_DistAxioms_thorough2.cfg", "mc_distaxioms_dim3", True)]
+    wk = 1 if q else max(1, min(4, W // 2))
+    with ThreadPoolExecutor(2 if q else max(1, min(len(runs), W // wk))) as ex:
+        res = list(ex.map(lambda r: tlc.run(r[0], r[1], workers=wk, timeout=1700, coverage=(r[0] == "MtKernel")), runs))
+    for (mod, cfg, label, must_hold), r in zip(runs, res):
+        ctx.add_tlc(r, label)
+        if must_hold:
+            if not r.ok:
+                # a counterexample of the design model alone is not reported as a violation of the code (DESIGN section 4 (V))
+                raise InfraError("%s/%s: %s fails in the model itself:\n%s" % (mod, cfg, r.violation, r.trace_text[:1500]))
+            if mod == "MtKernel" and r.zero_actions():
+                raise InfraError("%s/%s: actions never taken: %s" % (mod, cfg, r.zero_actions()))
+        elif r.ok or r.violation != "DoneIsDef":
+            raise InfraError("%s/%s: the seeded 'return before the resize' guard must violate DoneIsDef (got %s): the invariant does not bite" % (mod, cfg, r.violation))
+        ctx.case(("model", label))
+    ctx.note("models: Slicing %d (rows,threads) states (InvA InvB InvSame InvC InvD), MtKernel %d states (WriteOnce InBounds DoneIsDef NeedsZero, Live), "
+             "guard self-test rejected as it must, DistAxioms %d point sets" % (res[0].distinct, res[1].distinct, res[5].distinct))
+
+
+# ---------------------------------------------------------------------------------------------- (C) drive
+def _val_jobs(ctx, rd, tier):
+    parts = VAL_PARTS_Q if ctx.quick else VAL_PARTS_T
+    jobs = [[os.path.join(rd, "vc%d.ndjson" % i), "classes", i, parts, ctx.seed, tier] for i in range(parts)]
+    jobs.append([os.path.join(rd, "vh.ndjson"), "hist", 0, 1, ctx.seed, tier])
+    up = 2 if ctx.quick else 6
+    jobs += [[os.path.join(rd, "vu%d.ndjson" % i), "users", i, up, ctx.seed, tier] for i in range(up)]
+    return jobs
+
+
+def _collect(ctx, exe, jobs, what, origin, name):
+    res = hrun.run_many(exe, jobs, timeout=2400, workers=W)
+    events = []
+    for j, h in zip(jobs, res):
+        ev = hrun.read_ndjson(j[0])
+        if h.rc != 0:
+            last = ev[-1] if ev else {}
+            case = dict(kind="harness", driver=name, args=j[1:], last=last)
+            if h.san:
+                ctx.violation("MT:%s:%s" % (last.get("site", "?"), h.san), "sanitizer report while driving %s %s (last event %s):\n%s" % (what, j[1:], last, h.err[:1500]), case)
+            elif h.timed_out:
+                raise InfraError("%s harness timed out (%s)" % (name, j[1:]))
+            elif h.rc in (2, 3):
+                raise InfraError("%s harness failed rc=%d: %s" % (name, h.rc, h.err[-500:]))
+            else:
+                ctx.violation("MT:%s:crash:rc%d" % (last.get("site", "?"), h.rc), "harness died (rc=%d) after event %s\n%s" % (h.rc, last, h.err[-800:]), case)
+        for e in ev:
+            origin[id(e)] = (name, j[1:])
+        events += ev
+    return events
+
+
+def _account(ctx, events):
+    n = dict(Slices=0, Value=0, Cmp=0, Tab=0, Lab=0, Idx=0, Cond=0, Dist=0)
+    sites, k7 = set(), {}
+    for ev in events:
+        e = ev["e"]
+        if e not in n:
+            continue
+        n[e] += 1
+        th, rows = ev.get("th", 0), ev.get("rows", ev.get("n", 0))
+        nt = th > 0 and (rows % th != 0 or th > rows)
+        if e == "Slices":
+            ctx.case(("S", ev["site"], rows, th), nt)
+            ctx.cls("K2:rows=k*th" if rows % th == 0 else ("K6:th>rows" if th > rows else "K6:th-not-dividing"))
+        elif e == "Value":
+            ctx.case(("V", ev["site"], rows, th, ev["kind"]), nt)
+        elif e == "Cmp":
+            ctx.case(("C", ev["site"], ev["what"], ev["cls"], ev["shp"], rows, ev["cols"], th), True)
+            ctx.cls(ev["cls"]); ctx.cls(ev["shp"]); ctx.cls("K6:th%d" % th if th <= 24 else "K6:th>24")
+            if th > rows:
+                ctx.cls("K6:th>rows")
+            sites.add(ev["site"].split(":")[0])
+        elif e == "Tab":
+            ctx.case(("T", ev["site"], ev["kind"], ev["form"], ev["n"], ev["nb"], th, tuple(ev["pre"])), True)
+            ctx.cls(ev["cls"]); ctx.cls("K6:th%d" % th)
+            k7[ev["cls"]] = k7.get(ev["cls"], 0) + 1
+            sites.add("Tab:%s:%s" % (ev["site"], ev["kind"]))
+        elif e == "Lab":
+            ctx.case(("L", ev["site"], ev["n"], ev["k"], th, str(ev["P"])), True)
+            ctx.cls(ev["cls"])
+        else:
+            ctx.case((e, ev.get("n"), th), True)
+    return n, sites, k7
+
+
+def _vacuity(ctx, n, sites, k7, events):
+    if n["Slices"] == 0:
+        raise InfraError("no Slices events: hook H3 is not firing (hooks removed or guard off)")
+    for e in ("Cmp", "Tab", "Lab", "Idx", "Cond", "Dist"):
+        if n[e] == 0:
+            raise InfraError("no %s events recorded: a harness path went silent" % e)
+    need = ["MT_MatrixDVectorDotProduct", "MT_DVectorMatrixDotProduct", "CalculateDistance", "DistanceCondensed", "getLabels_", "MDC", "MaxDis", "MaxDis_Fast",
+            "KMeansppCenters", "KMeans", "PruneResults"]
+    need += ["Tab:%s:%s" % (s, k) for s in ("CalculateDistance", "DistanceCondensed", "Distance_ST") for k in ("euclidean", "sqeuclidean", "manhattan", "cosine")]
+    miss = [s for s in need if s not in sites]
+    if miss:
+        raise InfraError("kernels never compared: %s" % miss)
+    for c in ("K7:fresh", "K7:stale-larger", "K7:stale-to-empty", "K7:stale-smaller", "K7:same-shape"):
+        if k7.get(c, 0) < 4:
+            raise InfraError("history class %s reached only %d times" % (c, k7.get(c, 0)))
+    # every class the generator is supposed to emit must really have been executed
+    want = ["K1:tall", "K1:square", "K1:wide", "K1:single-col", "K1:single-row", "K1:n=p-1", "K1:n=p+1", "K2:rows=k*th", "K2:rows=k*th-1", "K2:rows=k*th+1",
+            "K2:rows-32-60-boundary", "K3:offset1e6", "K3:offset1e8", "K4:scale1e-6", "K4:scale1e6", "K4:colunits-2^-30..2^30", "K4:overflowing-products",
+            "K5:nonrepresentable", "K6:clamp-straddle", "K6:th>rows", "K6:th>24", "K7:inplace-refill", "K7:shape-history", "K8:dup-rows-cols-const", "K8:grid-ties",
+            "K8:label-ties", "K9:missing-first-row", "K9:missing-last-row", "K9:missing-column"] + ["K6:th%d" % t for t in (1, 2, 3, 5, 8, 16, 24)]
+    miss = [c for c in want if ctx.classes.get(c, 0) == 0]
+    if miss:
+        raise InfraError("input classes never executed: %s" % miss)
+    # antecedents of the ledger: a non-trivial tolerance must have been exercised with a non-zero error somewhere
+    if not any(e["e"] == "Cmp" and e["tol"] != "exact" and e["err"] > 0 for e in events):
+        raise InfraError("value ledger never saw a rounding difference: the definition side is not independent")
+
+
+def _selftests(ctx, events):
+    """binding: corrupt one recorded field per event kind -> TLC must reject"""
+    def first(pred, k=60):
+        out = [e for e in events if pred(e)][:k]
+        if not out:
+            raise InfraError("binding self-test: no suitable event")
+        return out
+
+    def c_slices(ev):
+        for e in ev:
+            if e["e"] == "Slices" and e["rows"] >= 3 and len(e["sl"]) >= 2 and e["sl"][0][1] > 1:
+                e["sl"][0][1] -= 1
+                return True
+        return False
+
+    def c_cmp_err(ev):
+        for e in ev:
+            if e["e"] == "Cmp" and e["tol"] != "exact":
+                e["err"] = 2 * e["len"] * 4 + 40
+                return True
+        return False
+
+    def c_cmp_rep(ev):
+        for e in ev:
+            if e["e"] == "Cmp" and e["what"] == "repeat":
+                e["ndiff"] = 1
+                return True
+        return False
+
+    def c_tab_cell(ev):
+        for e in ev:
+            if e["e"] == "Tab" and e["form"] == "condensed" and len(e["cv"]) >= 3:
+                e["cv"][2] += 7
+                return True
+        return False
+
+    def c_tab_shape(ev):
+        for e in ev:
+            if e["e"] == "Tab" and e["form"] == "condensed" and e["n"] <= 1:
+                e["post"], e["cv"] = [1], [0]
+                return True
+        return False
+
+    def c_tab_sq(ev):
+        for e in ev:
+            if e["e"] == "Tab" and e["form"] == "square" and e["n"] >= 2 and e["nb"] >= 1:
+                e["sq"][0][1] += 7
+                return True
+        return False
+
+    def c_lab(ev):
+        for e in ev:
+            if e["e"] == "Lab" and e["k"] >= 2:
+                d = [sum((p - c) ** 2 for p, c in zip(e["P"][0], cc)) for cc in e["C"]]
+                far = d.index(max(d))
+                if d[far] > min(d):
+                    e["lab"][0] = far
+                    return True
+        return False
+    tests = [("binding_slices", lambda e: e["e"] == "Slices" and e["rows"] >= 3 and e["th"] >= 2, c_slices),
+             ("binding_cmp_tolerance", lambda e: e["e"] == "Cmp" and e["tol"] != "exact", c_cmp_err),
+             ("binding_cmp_repeat", lambda e: e["e"] == "Cmp" and e["what"] == "repeat", c_cmp_rep),
+             ("binding_tab_condensed_cell", lambda e: e["e"] == "Tab" and e["form"] == "condensed" and len(e["cv"]) >= 3, c_tab_cell),
+             ("binding_tab_stale_shape", lambda e: e["e"] == "Tab" and e["form"] == "condensed" and e["n"] <= 1, c_tab_shape),
+             ("binding_tab_square_cell", lambda e: e["e"] == "Tab" and e["form"] == "square" and e["n"] >= 2 and e["nb"] >= 1, c_tab_sq),
+             ("binding_lab", lambda e: e["e"] == "Lab" and e["k"] >= 2, c_lab)]
+
+    def one(t):
+        label, pred, cor = t
+        return trace.binding_selftest(ctx, "TraceSlicing", "Trace_Slicing_prop.cfg", first(pred), cor, label)
+    with ThreadPoolExecutor(max(1, min(len(tests), W))) as ex:
+        list(ex.map(one, tests))
+
+
 def run_check(ctx, maxrows, maxth, mode, parts):
     ctx.assumptions += [
-        "TLC explores Slicing.tla exhaustively within the stated (rows, threads) bounds only",
-        "value agreement (MT vs definition) is evaluated by the harness in double precision and logged as a flag; TLC checks the flags, the logged ranges, index positions and integer distance tables",
+        "TLC explores Slicing.tla / MtKernel.tla / DistAxioms.tla exhaustively within the stated bounds only",
+        "ledger entries (shape, cells not bit-identical, largest error in units of 2^-53 x scale) are measured by the harness in long double and logged as integers; "
+        "TLC judges them against Tol(kind, len) of Slicing.tla; integer tables, labels, ranges and index positions are recomputed by TLC itself",
         "hook H3 reports the ranges at the moment they are handed to pthread_create; hook H2 forces the processor count",
         "ASan/UBSan build: any sanitizer report during the drive is a violation",
     ]
-    # (M)
-    cfg = "MC_Slicing_quick.cfg" if ctx.quick else "MC_Slicing_thorough.cfg"
-    r = tlc.run("Slicing", cfg, timeout=1500)
-    ctx.add_tlc(r, "mc_slicing")
-    if not r.ok:
-        # a counterexample of the design model alone is not reported as a violation of the code (DESIGN section 4 (V))
-        raise InfraError("Slicing.tla: invariant %s fails in the model itself:\n%s" % (r.violation, r.trace_text[:1500]))
-    ctx.note("model: %d (rows,threads) states, invariants InvA InvB InvSame InvC hold" % r.distinct)
-    # (C)
     lib = build.build_lib("san")
     exe = build.build_harness("c13", ["c13_drv.c"], lib)
+    exv = build.build_harness("c13v", ["c13_val.c"], lib)
     rd = tlc.rundir()
+    origin = {}
+    mpool = ThreadPoolExecutor(1)
+    mfut = mpool.submit(models, ctx)       # the models do not depend on the library: checked while the harnesses run
     try:
         bounds = []
         per = (maxrows + parts) // parts
@@ -70,61 +323,57 @@ def run_check(ctx, maxrows, maxth, mode, parts):
         # thread counts beyond the exhaustive grid ("every requested thread count, including counts larger than the number of rows")
         for i, r in enumerate([33, 48, 64, 100] if ctx.quick else []):
             jobs.append([os.path.join(rd, "w%d.ndjson" % i), r, r, 64, ctx.seed + 7, "slices"])
-        res = hrun.run_many(exe, jobs, timeout=2400)
-        events = []
-        for j, h in zip(jobs, res):
-            ev = hrun.read_ndjson(j[0])
-            if h.rc != 0:
-                last = ev[-1] if ev else {}
-                if h.san:
-                    ctx.violation("MT:%s:%s" % (last.get("site", "?"), h.san), "sanitizer report while driving rows %s..%s threads<=%s (last event %s):\n%s"
-                                  % (j[1], j[2], j[3], last, h.err[:1500]), dict(kind="harness", args=j[1:], last=last))
-                elif h.timed_out:
-                    raise InfraError("c13 harness timed out (rows %s..%s)" % (j[1], j[2]))
-                else:
-                    ctx.violation("MT:%s:crash:rc%d" % (last.get("site", "?"), h.rc), "harness died (rc=%d) after event %s\n%s" % (h.rc, last, h.err[-800:]),
-                                  dict(kind="harness", args=j[1:], last=last))
-            events += ev
-        if not events:
+        vjobs = _val_jobs(ctx, rd, 0 if ctx.quick else 1)
+        with ThreadPoolExecutor(2) as ex:
+            f1 = ex.submit(_collect, ctx, exe, jobs, "rows..rows threads<= seed mode", origin, "drv")
+            f2 = ex.submit(_collect, ctx, exv, vjobs, "mode part nparts seed tier", origin, "val")
+            ev1, ev2 = f1.result(), f2.result()
+        ctx.note("harness drive finished: %d + %d events" % (len(ev1), len(ev2)))
+        mfut.result()
+        if not ev1 or not ev2:
             raise InfraError("c13 harness produced no events")
-        nsl = 0
-        for ev in events:
-            if ev["e"] == "Slices":
-                nsl += 1
-                nt = ev["rows"] % ev["th"] != 0 or ev["th"] > ev["rows"]
-                ctx.case(("S", ev["site"], ev["rows"], ev["th"]), nt)
-            elif ev["e"] in ("Value", "Cond", "Dist", "Idx"):
-                ctx.case(("V", ev.get("site", ev["e"]), ev.get("rows", ev.get("n")), ev.get("th", 0), ev.get("kind", "")),
-                         ev["e"] != "Value" or ev["rows"] % max(1, ev["th"]) != 0 or ev["th"] > ev["rows"])
-        if nsl == 0:
-            raise InfraError("no Slices events: hook H3 is not firing (hooks removed or guard off)")
-        for ev in events:
+        events = ev1 + ev2
+        n, sites, k7 = _account(ctx, events)
+        _vacuity(ctx, n, sites, k7, events)
+        for ev in ev1:
             if ev["e"] == "Slices" and ev["th"] > 1 and ev["rows"] % ev["th"] != 0:
-                ctx.sample(ev, 3)
-        for ev in events:
-            if ev["e"] in ("Cond", "Dist"):
+                ctx.sample(ev, 2)
+        for kind in ("Cond", "Dist"):
+            for ev in ev1:
+                if ev["e"] == kind:
+                    ctx.sample(ev, 4)
+                    break
+        for ev in ev2:
+            if ev["e"] == "Tab" and ev["cls"] == "K7:stale-to-empty":
                 ctx.sample(ev, 5)
-        ctx.cov["rule"] = ("every (site, rows, threads) with rows 0..%d, threads 1..%d driven through the real library; a case is one recorded "
-                           "Slices/Value/Cond/Dist/Idx event keyed by (site, rows, threads, kind); non-trivial = threads does not divide rows or threads > rows "
-                           "(all Cond/Dist/Idx events count)") % (maxrows, maxth)
+                break
+        for ev in ev2:
+            if ev["e"] == "Cmp" and ev["cls"].startswith("K3") and ev["err"] > 0:
+                ctx.sample(ev, 6)
+                break
+        ctx.cov["rule"] = ("every (site, rows, threads) with rows 0..%d, threads 1..%d driven through the real library (Slices/Value events keyed by site, rows, threads, "
+                           "kind; non-trivial = threads does not divide rows or threads > rows); plus one case per ledger entry (site, comparison, input class, shape "
+                           "class, rows, cols, threads), per integer table (site, kind, form, points, threads, shape before the call), per label set, per model run; "
+                           "events by kind: %s") % (maxrows, maxth, n)
         ctx.cov["exhaustive"] = True
 
         def on_reject(ev, idx, block):
             sig, what = _sig(ev)
-            ctx.violation(sig, what, dict(kind="event", event=ev))
+            if ev.get("xt"):
+                # routine outside the statement (driven because the specification covers the kernel it is built on): never a verdict
+                ctx.extra(sig, what)
+                return lambda e: _sig(e)[0] == sig
+            drv, args = origin.get(id(ev), ("drv", None))
+            ctx.violation(sig, what, dict(kind="event", event=ev, driver=drv, args=args))
             return lambda e: _sig(e)[0] == sig
-        trace.check_trace(ctx, "TraceSlicing", "Trace_Slicing.cfg", "Trace_Slicing_prop.cfg", events, on_reject, drop="event", label="trace_slicing")
-        ctx.traces(len(jobs))
-        # binding self-test: shorten one recorded range / flip one flag -> must be rejected
-
-        def corrupt(ev):
-            for e in ev:
-                if e["e"] == "Slices" and e["rows"] >= 3 and len(e["sl"]) >= 2 and e["sl"][0][1] > 1:
-                    e["sl"][0][1] -= 1
-                    return True
-            return False
-        trace.binding_selftest(ctx, "TraceSlicing", "Trace_Slicing_prop.cfg", [e for e in events if e["e"] == "Slices" and e["rows"] >= 3 and e["th"] >= 2][:200], corrupt, "binding_slices")
+        with ThreadPoolExecutor(2) as ex:
+            f1 = ex.submit(trace.check_trace, ctx, "TraceSlicing", "Trace_Slicing.cfg", "Trace_Slicing_prop.cfg", ev1, on_reject, "event", 12, None, 1500, "trace_slicing")
+            f2 = ex.submit(trace.check_trace, ctx, "TraceSlicing", "Trace_Slicing.cfg", "Trace_Slicing_prop.cfg", ev2, on_reject, "event", 12, None, 1500, "trace_values")
+            f1.result(), f2.result()
+        ctx.traces(len(jobs) + len(vjobs))
+        _selftests(ctx, events)
     finally:
+        mpool.shutdown(wait=True)
         shutil.rmtree(rd, ignore_errors=True)
 
 
@@ -143,14 +392,14 @@ def run_check_extra(ctx):
     rd = tlc.rundir()
     try:
         jobs = [[os.path.join(rd, "x%d.ndjson" % i), lo, lo + 3, 64, ctx.seed + 1, "slices"] for i, lo in enumerate(range(41, 105, 4))]
-        res = hrun.run_many(exe, jobs, timeout=2400)
+        res = hrun.run_many(exe, jobs, timeout=2400, workers=W)
         events = []
         for j, h in zip(jobs, res):
             ev = hrun.read_ndjson(j[0])
             if h.rc != 0:
                 last = ev[-1] if ev else {}
                 ctx.violation("MT:%s:%s" % (last.get("site", "?"), h.san or "crash:rc%d" % h.rc), "harness failed on rows %s..%s threads<=64:\n%s" % (j[1], j[2], h.err[:1200]),
-                              dict(kind="harness", args=j[1:]))
+                              dict(kind="harness", driver="drv", args=j[1:]))
             events += ev
         for ev in events:
             if ev["e"] in ("Slices", "Value"):
@@ -158,7 +407,7 @@ def run_check_extra(ctx):
 
         def on_reject(ev, idx, block):
             sig, what = _sig(ev)
-            ctx.violation(sig, what, dict(kind="event", event=ev))
+            ctx.violation(sig, what, dict(kind="event", event=ev, driver="drv", args=None))
         trace.check_trace(ctx, "TraceSlicing", "Trace_Slicing.cfg", "Trace_Slicing_prop.cfg", events, on_reject, drop="event", label="trace_slicing_deep", xmx="8g")
         ctx.traces(len(jobs))
     finally:
@@ -167,29 +416,44 @@ def run_check_extra(ctx):
 
 def replay(ctx, body):
     case = body.get("case") or {}
-    if case.get("kind") == "event":
-        ev = case["event"]
-        events = [dict(e="Reset", rows=ev.get("rows", 0), th=ev.get("th", 1)), ev]
-        # re-record the same (rows, threads) from the current tree rather than trusting the stored event
-        rows, th = ev.get("rows", ev.get("n", 0)), ev.get("th", 1)
-        lib = build.build_lib("san")
-        exe = build.build_harness("c13", ["c13_drv.c"], lib)
-        rd = tlc.rundir()
-        try:
+    lib = build.build_lib("san")
+    rd = tlc.rundir()
+    try:
+        def on_reject(e, idx, block):
+            sig, what = _sig(e)
+            ctx.violation(sig, what, dict(kind="event", event=e, driver=case.get("driver"), args=case.get("args")))
+            return lambda x: _sig(x)[0] == sig
+        if case.get("driver") == "val" and case.get("args"):
+            # re-record the whole job (mode, part, nparts, seed, tier) the event came from, from the current tree
+            exv = build.build_harness("c13v", ["c13_val.c"], lib)
+            out = os.path.join(rd, "r.ndjson")
+            h = hrun.run(exv, [out] + list(case["args"]), timeout=2400)
+            events = hrun.read_ndjson(out)
+            if h.rc != 0:
+                ctx.violation("MT:replay:%s" % (h.san or "crash:rc%d" % h.rc), h.err[:1500], case)
+            if events:
+                trace.check_trace(ctx, "TraceSlicing", "Trace_Slicing.cfg", "Trace_Slicing_prop.cfg", events, on_reject, label="replay")
+            ctx.case(("replay", "val", str(case["args"])))
+            ctx.case(("replay2", "val", str(case["args"])))
+            if case.get("event"):
+                ctx.sample(case["event"])
+            ctx.traces(1)
+        elif case.get("kind") in ("event", "harness"):
+            ev = case.get("event") or case.get("last") or {}
+            # re-record the same (rows, threads) from the current tree rather than trusting the stored event
+            rows, th = ev.get("rows", ev.get("n", 0)), ev.get("th", 1)
+            exe = build.build_harness("c13", ["c13_drv.c"], lib)
             h = hrun.run(exe, [os.path.join(rd, "r.ndjson"), rows, rows, max(th, 1), body.get("seed", ctx.seed), "full"])
             events = [e for e in hrun.read_ndjson(os.path.join(rd, "r.ndjson")) if e.get("th", th) == th or e["e"] in ("Idx", "Dist")]
             if h.rc != 0:
                 ctx.violation("MT:replay:%s" % (h.san or "crash"), h.err[:1500], case)
-
-            def on_reject(e, idx, block):
-                sig, what = _sig(e)
-                ctx.violation(sig, what, dict(kind="event", event=e))
-            trace.check_trace(ctx, "TraceSlicing", "Trace_Slicing.cfg", "Trace_Slicing_prop.cfg", events, on_reject, label="replay")
+            if events:
+                trace.check_trace(ctx, "TraceSlicing", "Trace_Slicing.cfg", "Trace_Slicing_prop.cfg", events, on_reject, label="replay")
             ctx.case(("replay", rows, th))
             ctx.case(("replay2", rows, th))
             ctx.sample(ev)
             ctx.traces(1)
-        finally:
-            shutil.rmtree(rd, ignore_errors=True)
-    else:
-        run(ctx)
+        else:
+            run(ctx)
+    finally:
+        shutil.rmtree(rd, ignore_errors=True)
